@@ -74,6 +74,13 @@ func H_C11_filter() {
 		fsw.Events <- e
 	}
 	close(fsw.Events)
+	if nondetChoice("watcher-error-pending", 2) == 1 {
+		// an error reported by the watcher (e.g. an event queue overflow) must not end the event loop; the engine takes the
+		// error before the pending events (natively Go's select picks either)
+		fsw.Errors <- vNewErr("fsnotify: queue or buffer overflow")
+		vselectOrder(1)
+		defer vselectOrder(0)
+	}
 	refreshes := 0
 	var mu sync.Mutex
 	w := &watch{watcher: fsw, tracked: map[string]bool{dir: true}}
